@@ -89,9 +89,10 @@ def as_caller_bytes(b, k):
     return Octets(b) if k % 5 == 4 else bytes(b)
 
 
-def full_lc_other(rng, sub):
+def full_lc_other(rng, sub, ident=None):
     """the full link controls that are not voice channel users: sub = "gps" (GPS Info, coordinates on the 25 / 24 bit grid,
-    both signs and the extremes) or "ta" (talker alias header / blocks 1..3)"""
+    both signs and the extremes) or "ta" (talker alias header / blocks 1..3).  ident: a burst id to carry (these link controls
+    have no source address): in the first alias octets behind the marker octet 0xA5, or as the longitude's grid index"""
     from okdmr.dmrlib.etsi.layer2.elements.feature_set_ids import FeatureSetIDs
     from okdmr.dmrlib.etsi.layer2.elements.flcos import FLCOs
     from okdmr.dmrlib.etsi.layer2.pdu.full_link_control import FullLinkControl
@@ -104,13 +105,14 @@ def full_lc_other(rng, sub):
                             (1 << (w - 1)) - 1, 0, rng.randrange(1, 1 << (w - 1))])
             return k
         return FullLinkControl(flco=FLCOs.GPSInfo, position_error=rng.choice(list(PositionError)),
-                               longitude=grid(25) * (360 / 2 ** 25), latitude=grid(24) * (180 / 2 ** 24), **kw)
+                               longitude=(grid(25) if ident is None else ident) * (360 / 2 ** 25), latitude=grid(24) * (180 / 2 ** 24), **kw)
+    alias = lambda n: rbytes(rng, n) if ident is None else marker(ident) + rbytes(rng, n - 3)
     if rng.random() < 0.4:
         return FullLinkControl(flco=FLCOs.TalkerAliasHeader, talker_alias_data_format=rng.choice(list(TalkerAliasDataFormat)),
                                talker_alias_data_length=rng.randrange(32), talker_alias_data_msb=rng.getrandbits(1),
-                               talker_alias_data=rbytes(rng, 6), **kw)
+                               talker_alias_data=alias(6), **kw)
     return FullLinkControl(flco=rng.choice([FLCOs.TalkerAliasBlock1, FLCOs.TalkerAliasBlock2, FLCOs.TalkerAliasBlock3]),
-                           talker_alias_data=rbytes(rng, 7), **kw)
+                           talker_alias_data=alias(7), **kw)
 
 
 HDR_FORMATS = ["C", "U", "R", "S", "T"]
